@@ -156,3 +156,112 @@ def harnesses(tier):
                           functions=[MessageBatch.done, MessageBatch.done_noack, MessageBatch.failure], shape="U",
                           symbolic_vars="resolution path and pre-cancelled subset (choices)", bounds={"records": n}))
     return hs
+
+
+# ------------------------------------------------------------------------------------------
+# S1: every future resolved; results name the record's true coordinates (shared producer run)
+
+from . import prodsim  # noqa: E402
+from .C01 import produce_config  # noqa: E402
+
+PRODUCE_VERSIONS = [(0, 7), (0, 0), (0, 1), (0, 2), (0, 5)]
+
+
+def s1_futures(src, tasks_spec, max_requests, max_faults):
+    cfg = produce_config(src, allow_acks0=True)
+    cfg["log_append_time"] = src.flag("log_append_time")
+    cfg["explicit_ts"] = src.flag("explicit_timestamps")
+    pv = PRODUCE_VERSIONS[src.choice("produce_versions", len(PRODUCE_VERSIONS))]
+    if cfg["idempotent"] and pv[1] < 3:
+        pv = (0, 7)  # idempotent producers need v3+ (IncompatibleBrokerVersion otherwise)
+    cfg["versions"] = {0: pv}
+    cfg["finish"] = ["flush_stop", "stop"][src.choice("finish", 2)]
+    res = prodsim.run_producer(src, cfg, tasks_spec, prodsim.RETRIABLE_MENU, max_requests, max_faults)
+    c = res["cluster"]
+    faults = res["plan"].log
+    src.note({"cfg": {k: v for k, v in cfg.items()}, "faults": faults})
+    src.check("deadlock" not in res, "flush()/stop() did not return in bounded virtual time: " + str(res.get("deadlock")), faults=faults, cfg=str(cfg))
+    if "sends" not in res or "deadlock" in res:
+        return
+    accepted = [s for s in res["sends"] if s["fut"] is not None]
+    # a send() that raised (e.g. KafkaTimeoutError while the batch queue is full) was not accepted
+    if cfg["finish"] == "flush_stop":
+        src.check(not res["pending_after_flush"], "flush() returned while an accepted record was unresolved", faults=faults, cfg=str(cfg))
+    src.check(not res["pending_after_stop"], "stop() returned while an accepted record was unresolved", faults=faults, cfg=str(cfg))
+    # bounded time: every fault costs at most a request timeout + backoff + a metadata round trip
+    bound = 3.0 + 2.5 * max_faults
+    src.check(res["stop_returned_at"] - res["started_at"] <= bound,
+              f"run took {res['stop_returned_at'] - res['started_at']:.2f}s of virtual time (> {bound}s) after retriable faults only", faults=faults)
+    acks0 = cfg.get("acks") == 0
+    for s in accepted:
+        f = s["fut"]
+        if not f.done() or f.cancelled():
+            continue
+        if f.exception() is not None:
+            if cfg["idempotent"]:
+                src.check(False, "an accepted record failed although only retriable faults occurred and idempotence is enabled",
+                          error=repr(f.exception()), faults=faults, cfg=str(cfg))
+            else:
+                src.check(getattr(f.exception(), "retriable", False) or isinstance(f.exception(), Exception),
+                          "record failed with a non-Kafka error")
+            continue
+        md = f.result()
+        if acks0:
+            src.check(md is None, "acks=0 must resolve without metadata")
+            continue
+        src.check(md is not None, "acknowledged record resolved without metadata")
+        if md is None:
+            continue
+        log = {r[0]: r for r in prodsim.log_records(c, ("t", s["p"]))}
+        src.check(md.partition == s["p"] and md.topic == "t", "wrong topic/partition in the result")
+        if md.offset < 0:
+            continue  # DuplicateSequence without retained metadata
+        rec = log.get(md.offset)
+        ok = rec is not None and rec[1] == s["key"] and rec[2] == s["value"]
+        if src.twin:
+            ok = not ok
+        src.check(ok, "the record at the reported (partition, offset) is not the record that was sent",
+                  sent=s["key"], found=(rec[1] if rec else None), offset=md.offset, faults=faults, cfg=str(cfg))
+        if rec is None:
+            continue
+        batch = rec[4]
+        if c.logs[("t", s["p"])].log_append_time and cfg["versions"][0][1] >= 2:
+            src.check(md.timestamp_type == 1 and md.timestamp == rec[3], "LogAppendTime topic: result does not carry the broker's timestamp/type",
+                      got=(md.timestamp, md.timestamp_type), want=rec[3])
+        elif not c.logs[("t", s["p"])].log_append_time:
+            src.check(md.timestamp_type == 0, "CreateTime topic: wrong timestamp type")
+            src.check(md.timestamp == rec[3], "CreateTime topic: result timestamp is not the record's own timestamp",
+                      got=md.timestamp, want=rec[3], faults=faults, cfg=str(cfg))
+            if s["ts"] is not None:
+                src.check(md.timestamp == s["ts"], "explicit timestamp not reported back")
+
+
+def _s1(tier):
+    from aiokafka.producer.sender import Sender, SendProduceReqHandler
+    from aiokafka.producer.message_accumulator import MessageAccumulator
+    from aiokafka.producer.producer import AIOKafkaProducer
+    q = tier == "quick"
+    confs = [([[0, 1, 0], [0, 0]], 4, 1)] if q else [([[0, 1, 0], [0, 0], [1, 1]], 6, 2)]
+    hs = []
+    for spec, mr, mf in confs:
+        hs.append(Harness(
+            name=f"S1_futures_{len(spec)}tasks_{mr}req_{mf}faults", fn=s1_futures,
+            params={"tasks_spec": spec, "max_requests": mr, "max_faults": mf},
+            functions=[MessageBatch.done, MessageBatch.failure, MessageBatch.done_noack, MessageAccumulator.flush,
+                       MessageAccumulator.close, MessageAccumulator.add_message, SendProduceReqHandler.handle_response,
+                       SendProduceReqHandler.do, AIOKafkaProducer.stop, AIOKafkaProducer.flush, AIOKafkaProducer.send],
+            shape="S",
+            symbolic_vars="choices: idempotence, acks (0/1/all), linger, batch size, CreateTime/LogAppendTime topic, explicit/default timestamps, advertised produce versions, flush+stop or stop only, fault kind at each of the first produce/metadata requests",
+            bounds={"sender_tasks": len(spec), "records": sum(len(x) for x in spec), "faultable_requests": mr, "max_faults": mf,
+                    "produce_versions": [str(v) for v in PRODUCE_VERSIONS]},
+            stubs=["AIOKafkaConnection -> SimConn (env/simkafka.py)", "virtual-time event loop"],
+            assumptions=["broker behaviour as modelled in env/simkafka.py"],
+            max_seconds=400 if q else 2400, max_paths=5000000, twin_max_paths=2000))
+    return hs
+
+
+_u_harnesses = harnesses
+
+
+def harnesses(tier):  # noqa: F811
+    return _u_harnesses(tier) + _s1(tier)
